@@ -101,48 +101,66 @@ def _index_dispatch_body(f):
 
 
 def r2(ctx):
+    """QueryIterator::new evaluated (K6') on every query shape: which index is scanned with which bounds, which filter
+    remains to be applied to the rows, and whether the latest-per-key selector is installed"""
+    from . import feval as E
     f = ctx.facts
-    ctx.touch(f.body(QN))
-    b = _index_dispatch_body(f)
-    ctx.touch(b)
-    IKn = _names(f, "store::util::IndexKind")
-    AF = _names(f, "store::AuthorFilter")
-    seen = set()
-    for p in P.explore(b):
-        if not (p.ret[0] == "variant" and p.ret[1] == "Ok"):
-            continue
-        ik = _dec(p, "#IndexKind", IKn)
-        af = _dec(p, "#AuthorFilter", AF)
-        r = P.short(p.ret)
-        calls = {e[1]: e[2] for e in p.events if e[0] == "call"}
-        seen.add((ik, af))
-        if ik == "AuthorKey" and af == "Exact":
-            t = calls.get("author_key")
-            ok = t is not None and re.search(r"key_filter:Any\b", r) is not None
-            if ok:
-                a = [sorted({origin_summary(o) + "." + ".".join(mir.field_path(o)) for o in trace(b, x)}) for x in t["a"]]
-                ok = a[0] == ["arg:namespace."] and any("key_filter" in x for x in a[2]) and any(x.endswith(".0") or "as Exact" in x or x.endswith("range.0") or "range" in x for x in a[1])
-            ctx.check(ok, "C05.R2", QN, "exact-author: bounds(namespace,author,key_filter) and residual filter Any",
-                      "result %s" % r[:200], b.sp)
-        elif ik == "AuthorKey" and af == "Any":
-            t = calls.get("namespace")
-            ok = t is not None and re.search(r"key_filter:(place|value):[^,}]*AuthorKey\.key_filter", r) is not None and "author_key" not in calls
-            ctx.check(ok, "C05.R2", QN, "any-author: namespace bounds and the key filter is retained",
-                      "result %s" % r[:200], b.sp)
-        elif ik == "KeyAuthor":
-            t = calls.get("new")
-            ok = t is not None and re.search(r"author_filter:(place|value):[^,}]*KeyAuthor\.author_filter", r) is not None and "selector:call:then" in r
-            if ok:
-                a1 = {origin_summary(o) + "." + ".".join(mir.field_path(o)) for o in trace(b, t["a"][1])}
-                a0 = {origin_summary(o) for o in trace(b, t["a"][0])}
-                ok = a0 == {"arg:namespace"} and any("range" in x for x in a1)
-                th = calls.get("then")
-                ok = ok and th is not None and any("latest_per_key" in ".".join(mir.field_path(o)) for o in trace(b, th["a"][0]))
-            ctx.check(ok, "C05.R2", QN, "key-ordered: bounds(namespace,key range), author filter retained, selector iff latest_per_key",
-                      "result %s" % r[:220], b.sp)
-    ctx.check(seen == {("AuthorKey", "Exact"), ("AuthorKey", "Any"), ("KeyAuthor", None)}, "C05.R2", QN, "all-arms-seen", "%s" % sorted(seen, key=str), b.sp)
-    # the records ranges are opened on the right tables
-    ctx.floor("C05.R2", 4)
+    qn = f.body(QN)
+    ctx.touch(*f.scope(QN, prefix="store::"))
+    AF, KF = "store::AuthorFilter", "store::KeyFilter"
+    n = 0
+    for kind in ("Flat/KeyAuthor", "Flat/AuthorKey", "SingleLatestPerKey"):
+        for af in ("Any", "Exact"):
+            for kf in ("Any", "Exact", "Prefix"):
+                n += 1
+                scans = []
+
+                def oracle(k, name, payload, site):
+                    if k != "call":
+                        return None
+                    t, args, it = payload
+                    names = [it.tokname(a) for a in args]
+                    if callee_matches(t, r"store::fs::bounds::RecordsBounds::(author_key|namespace|author_prefix|new|from_start|to_end)$") or callee_matches(t, r"store::fs::bounds::ByKeyBounds::(new|namespace)$"):
+                        return E.Tok("%s::%s(%s)" % ((t["f"].get("path") or "").split("::")[-2], name, ",".join(names)))
+                    if name == "range" and "Table" in (t["f"].get("full") or "") + (t["f"].get("path") or ""):
+                        scans.append((names[0], names[1]))
+                        return E.Ok(E.Tok("scan(%s)" % names[0]))
+                    if name in ("as_ref",) and names and ("Bounds::" in names[0]):
+                        return args[0]
+                    if name == "default" and not args:
+                        return E.Tok("default()")
+                    return None
+                qk = E.variant(f, "store::QueryKind", "SingleLatestPerKey", E.Tok("details")) if kind == "SingleLatestPerKey" else \
+                    E.variant(f, "store::QueryKind", "Flat", E.struct(f, "store::FlatQuery", sort_by=E.variant(f, "store::SortBy", kind.split("/")[1])))
+                afv = E.variant(f, AF, "Any") if af == "Any" else E.variant(f, AF, "Exact", E.Tok("the-author"))
+                kfv = E.variant(f, KF, "Any") if kf == "Any" else E.variant(f, KF, kf, E.Tok("the-key"))
+                Q = E.struct(f, "store::Query", kind=qk, filter_author=afv, filter_key=kfv, limit=E.NONE, offset=E.Int(0), include_empty=E.Int(0), sort_direction=E.variant(f, "store::SortDirection", "Asc"))
+                T = E.struct(f, "store::fs::tables::ReadOnlyTables", records=E.Tok("records"), records_by_key=E.Tok("records_by_key"), namespaces=E.Tok("t3"), latest_per_author=E.Tok("t4"),
+                             namespace_peers=E.Tok("t5"), download_policy=E.Tok("t6"), authors=E.Tok("t7"), tx=E.Tok("tx"))
+                try:
+                    ret, it_ = E.run_it(f, QN, [T, E.Tok("ns"), Q], {}, oracle)
+                    got = E.describe(it_.resolve(ret), f)
+                    rv = it_.resolve(ret)
+                    rng = E.describe(E.field(f, rv[3][0], "store::fs::query::QueryIterator", "range"), f) if rv and rv[0] == "adt" and rv[2] == 0 else got
+                except E.Unsupported as ex:
+                    got = rng = "UNSUPPORTED-FORM: %s" % ex
+                kfs = "Any" if kf == "Any" else "%s(the-key)" % kf
+                afs = "Any" if af == "Any" else "Exact(the-author)"
+                by_key = kind == "SingleLatestPerKey" or (kind == "Flat/KeyAuthor" and af == "Any")
+                if by_key:
+                    want_scans = [("records_by_key", "ByKeyBounds::new(ns,%s)" % kfs)]
+                    want_rng = "KeyAuthor(RecordsByKeyRange(records,scan(records_by_key)),%s,%s)" % (afs if kind == "SingleLatestPerKey" else "Any", "Some(*)" if kind == "SingleLatestPerKey" else "None")
+                elif af == "Exact":
+                    want_scans = [("records", "RecordsBounds::author_key(ns,the-author,%s)" % kfs)]
+                    want_rng = "AuthorKey(RecordsRange(scan(records)),Any)"
+                else:
+                    want_scans = [("records", "RecordsBounds::namespace(ns)")]
+                    want_rng = "AuthorKey(RecordsRange(scan(records)),%s)" % kfs
+                import re as _re
+                rng_n = _re.sub(r",Some\((?:[^()]|\([^()]*\))*\)\)$", ",Some(*))", rng)
+                ctx.check(got.startswith("Ok(") and scans == want_scans and rng_n == want_rng, "C05.R2", QN, "plan[%s,author=%s,key=%s]" % (kind, af, kf),
+                          "scans %s, iterator range %s; spec: scans %s, range %s (the filter consumed by the bounds is not applied twice, the other one is kept; the selector exists iff one entry per key is asked for)" % (scans, rng, want_scans, want_rng), qn.sp)
+    ctx.floor("C05.R2", 18)
 
 
 def r3(ctx):
